@@ -83,7 +83,26 @@ Value& POWExpression::value(Context & ctx) const
     {
       if (a2.isNull() || a1.isNull())
         return LVAL2(Value(Value::type_integer), a1, a2);
-      Value val(Integer(std::pow(*a1.integer(), *a2.integer())));
+      Integer e = *a2.integer();
+      if (e >= 0)
+      {
+        /* by squaring: the exact result modulo 2^64 */
+        uint64_t b = (uint64_t)(*a1.integer());
+        uint64_t r = 1;
+        for (uint64_t n = (uint64_t)e; n != 0; n >>= 1)
+        {
+          if (n & 1)
+            r *= b;
+          b *= b;
+        }
+        Value val((Integer)r);
+        return LVAL2(val, a1, a2);
+      }
+      /* negative exponent: the result is truncated, or infinite for 0 */
+      Numeric d = std::pow(*a1.integer(), e);
+      if (!(d >= Numeric(INT64_MIN) && d < -Numeric(INT64_MIN)))
+        throw RuntimeError(EXC_RT_OUT_OF_RANGE);
+      Value val((Integer)d);
       return LVAL2(val, a1, a2);
     }
     case Type::IMAGINARY:
